@@ -580,14 +580,30 @@ retrieve(struct decoder_state *restrict ds, struct bitstream *bs)
 
       while (rs->j < rs->alpha_size) {
         unsigned k = PEEK(6u);
+        unsigned r = R[k];
+        unsigned l = L[k];
+        bool done = (l != 6u);
 
-        rs->code_len[rs->j] += R[k];
+        /* The tables combine up to three delta steps and only the length
+           reached after all of them can be range-checked.  Within one step
+           of either limit a combined move could leave the valid range and
+           come back unnoticed (e.g. 20 -> 21 -> 20), so there decode a
+           single step at a time. */
+        if (unlikely(k >= 32u &&
+                     (rs->code_len[rs->j] <= MIN_CODE_LENGTH + 1u ||
+                      rs->code_len[rs->j] >= MAX_CODE_LENGTH - 1u))) {
+          r = (k & 16u) ? 2u : 4u;
+          l = 2u;
+          done = false;
+        }
+
+        rs->code_len[rs->j] += r;
         if (unlikely(rs->code_len[rs->j] < 3 + MIN_CODE_LENGTH ||
                      rs->code_len[rs->j] > 3 + MAX_CODE_LENGTH))
           return ERR_DELTA;
         rs->code_len[rs->j] -= 3;
-        k = L[k];
-        if (k != 6u) {
+        k = l;
+        if (done) {
           rs->j++;
           if (rs->j < rs->alpha_size)
             rs->code_len[rs->j] = rs->code_len[rs->j - 1u];
